@@ -92,3 +92,521 @@ fn c00_setup_probe() {
     let x: u8 = kani::any();
     assert!(x as u16 <= 255);
 }
+
+// ---------------------------------------------------------------------------------------------------------
+// C14 (and C13 "a refused request has no side effect"): checkpoint creation over a MODEL file system.
+// std::fs / Path::exists are replaced by stubs over a tiny model: one workspace file <root>/a (existence and a 1-byte
+// content id symbolic), the process working directory either equal to the root or not (symbolic; when different, the
+// relative name "a" denotes ANOTHER file with its own symbolic existence/content), and the checkpoint store slots
+// (<checkpoint>/files/a, checkpoint.json). The request names the file either absolutely (/r/a) or relatively (a)
+// (shape). Obligation from the property: the checkpoint covers the ROOT-relative path, so what it records and stores
+// must be the state of <root>/a -- the file a later rewind restores -- whatever the working directory is.
+// Canary: every harness of this family first asserts Vec::new() has capacity 0 (a `static mut` made Kani/CBMC
+// mis-model such constants in the ripd crate; here the model state has to live in a static because the fs stubs only
+// receive paths).
+// ---------------------------------------------------------------------------------------------------------
+struct ModelFs {
+    cwd_is_root: bool,
+    ws_a_exists: bool,
+    ws_a_content: u8,
+    cwd_a_exists: bool,
+    cwd_a_content: u8,
+    ck_a_written: bool,
+    ck_a_content: u8,
+    meta_written: bool,
+    mkdirs: u32,
+    writes: u32,
+    removes: u32,
+    fail_write_at: u32, // the n-th write fails (0 = never)
+}
+static mut MFS: ModelFs = ModelFs {
+    cwd_is_root: true, ws_a_exists: false, ws_a_content: 0, cwd_a_exists: false, cwd_a_content: 0,
+    ck_a_written: false, ck_a_content: 0, meta_written: false, mkdirs: 0, writes: 0, removes: 0, fail_write_at: 0,
+};
+fn mfs() -> &'static mut ModelFs {
+    unsafe { &mut *core::ptr::addr_of_mut!(MFS) }
+}
+#[derive(Clone, Copy, PartialEq, Eq)]
+enum PClass {
+    WsA,      // /r/a
+    CwdA,     // a   (relative: resolved against the process working directory)
+    CkFileA,  // <checkpoint>/files/a
+    CkMeta,   // <checkpoint>/checkpoint.json
+    Other,
+}
+fn bytes_eq(a: &[u8], b: &[u8]) -> bool {
+    if a.len() != b.len() {
+        return false;
+    }
+    let mut i = 0;
+    while i < a.len() {
+        if a[i] != b[i] {
+            return false;
+        }
+        i += 1;
+    }
+    true
+}
+fn ends_with(a: &[u8], suf: &[u8]) -> bool {
+    a.len() >= suf.len() && bytes_eq(&a[a.len() - suf.len()..], suf)
+}
+fn classify(p: &Path) -> PClass {
+    let b = p.as_os_str().as_encoded_bytes();
+    if bytes_eq(b, b"/r/a") {
+        PClass::WsA
+    } else if bytes_eq(b, b"a") {
+        PClass::CwdA
+    } else if ends_with(b, b"/files/a") {
+        PClass::CkFileA
+    } else if ends_with(b, b"checkpoint.json") {
+        PClass::CkMeta
+    } else {
+        PClass::Other
+    }
+}
+fn mfs_exists(this: &Path) -> bool {
+    let fs = mfs();
+    match classify(this) {
+        PClass::WsA => fs.ws_a_exists,
+        PClass::CwdA => {
+            if fs.cwd_is_root { fs.ws_a_exists } else { fs.cwd_a_exists }
+        }
+        PClass::CkFileA => fs.ck_a_written,
+        PClass::CkMeta => fs.meta_written,
+        PClass::Other => false,
+    }
+}
+fn mfs_read<P: AsRef<Path>>(path: P) -> io::Result<Vec<u8>> {
+    let fs = mfs();
+    let c = match classify(path.as_ref()) {
+        PClass::WsA => fs.ws_a_content,
+        PClass::CwdA => {
+            if fs.cwd_is_root { fs.ws_a_content } else { fs.cwd_a_content }
+        }
+        PClass::CkFileA => fs.ck_a_content,
+        _ => 0,
+    };
+    let mut v = Vec::with_capacity(1);
+    v.push(c);
+    Ok(v)
+}
+fn mfs_write<P: AsRef<Path>, C: AsRef<[u8]>>(path: P, contents: C) -> io::Result<()> {
+    let fs = mfs();
+    fs.writes += 1;
+    let b = contents.as_ref();
+    match classify(path.as_ref()) {
+        PClass::CkFileA => {
+            fs.ck_a_written = true;
+            fs.ck_a_content = if b.is_empty() { 0 } else { b[0] };
+        }
+        PClass::CkMeta => fs.meta_written = true,
+        PClass::WsA => {
+            fs.ws_a_exists = true;
+            fs.ws_a_content = if b.is_empty() { 0 } else { b[0] };
+        }
+        PClass::CwdA => {
+            if fs.cwd_is_root {
+                fs.ws_a_exists = true;
+                fs.ws_a_content = if b.is_empty() { 0 } else { b[0] };
+            } else {
+                fs.cwd_a_exists = true;
+                fs.cwd_a_content = if b.is_empty() { 0 } else { b[0] };
+            }
+        }
+        PClass::Other => {}
+    }
+    Ok(())
+}
+fn mfs_create_dir_all<P: AsRef<Path>>(_path: P) -> io::Result<()> {
+    mfs().mkdirs += 1;
+    Ok(())
+}
+fn stub_uuid_v4() -> Uuid {
+    Uuid::from_bytes([7u8; 16])
+}
+fn stub_now_ms() -> u64 {
+    kani::any()
+}
+fn stub_hash_bytes(_b: &[u8]) -> String {
+    String::new()
+}
+fn stub_to_string<T: core::fmt::Display + ?Sized>(_t: &T) -> String {
+    String::new()
+}
+fn stub_to_vec_pretty<T: ?Sized + serde::Serialize>(_v: &T) -> serde_json::Result<Vec<u8>> {
+    Ok(Vec::new())
+}
+
+macro_rules! c14_create_checkpoint {
+    ($name:ident, $request:expr) => {
+        #[kani::proof]
+        #[kani::unwind(24)]
+        #[kani::stub(std::fmt::format, stub_fmt_format)]
+        #[kani::stub(alloc::string::ToString::to_string, stub_to_string)]
+        #[kani::stub(uuid::Uuid::new_v4, stub_uuid_v4)]
+        #[kani::stub(now_ms, stub_now_ms)]
+        #[kani::stub(hash_bytes, stub_hash_bytes)]
+        #[kani::stub(serde_json::to_vec_pretty, stub_to_vec_pretty)]
+        #[kani::stub(std::path::Path::exists, mfs_exists)]
+        #[kani::stub(std::fs::read, mfs_read)]
+        #[kani::stub(std::fs::write, mfs_write)]
+        #[kani::stub(std::fs::create_dir_all, mfs_create_dir_all)]
+        fn $name() {
+            let canary: Vec<u8> = Vec::new();
+            assert!(canary.capacity() == 0, "kani-model-canary: constant mis-modelled");
+            {
+                let fs = mfs();
+                fs.cwd_is_root = kani::any();
+                fs.ws_a_exists = kani::any();
+                fs.ws_a_content = kani::any();
+                fs.cwd_a_exists = kani::any();
+                fs.cwd_a_content = kani::any();
+            }
+            let pre_exists = mfs().ws_a_exists;
+            let pre_content = mfs().ws_a_content;
+            let ws = kani_workspace();
+            let files = [PathBuf::from($request)];
+            let r = ws.create_checkpoint("s", "l", &files);
+            match &r {
+                Ok(cp) => {
+                    assert!(cp.files.len() == 1, "checkpoint does not cover exactly the requested file");
+                    assert!(cp.files[0].exists == pre_exists,
+                        "checkpoint recorded the existence of a different file than the one rewind restores (working directory vs workspace root)");
+                    if pre_exists {
+                        assert!(mfs().ck_a_written && mfs().ck_a_content == pre_content,
+                            "checkpoint stored the bytes of a different file than the one rewind restores");
+                    } else {
+                        assert!(!mfs().ck_a_written, "checkpoint stored bytes for a file that did not exist");
+                    }
+                    assert!(mfs().meta_written, "checkpoint metadata not written");
+                    kani::cover!(!mfs().cwd_is_root && pre_exists, "working directory differs from the root, file exists");
+                }
+                Err(_) => assert!(false, "checkpoint of a file inside the root refused"),
+            }
+            core::mem::forget(r);
+            core::mem::forget(files);
+            core::mem::forget(ws);
+        }
+    };
+}
+c14_create_checkpoint!(c14_create_abs_request, "/r/a");
+c14_create_checkpoint!(c14_create_rel_request, "a");
+
+// ---- C14: rewind over the model file system --------------------------------------------------------------
+// checkpoint.json is not parsed (serde is outside): serde_json::from_slice is replaced by a stub that returns the model
+// checkpoint: one covered path "a" whose recorded existence E is symbolic; the stored bytes are the symbolic content id
+// of <checkpoint>/files/a. The workspace file <root>/a is in an ARBITRARY later state (exists / content symbolic).
+// Shape: whether the first write of the restore step fails.
+struct RewindModel {
+    recorded_exists: bool,
+    fail_first_write: bool,
+}
+static mut RWM: RewindModel = RewindModel { recorded_exists: false, fail_first_write: false };
+fn rwm() -> &'static mut RewindModel {
+    unsafe { &mut *core::ptr::addr_of_mut!(RWM) }
+}
+fn stub_checkpoint_from_slice<'a, T: serde::Deserialize<'a>>(_b: &'a [u8]) -> serde_json::Result<T> {
+    // only instantiated for T = Checkpoint in this crate
+    assert!(core::mem::size_of::<T>() == core::mem::size_of::<Checkpoint>());
+    let cp = Checkpoint {
+        id: String::new(),
+        session_id: String::new(),
+        label: String::new(),
+        created_at_ms: 0,
+        files: vec![CheckpointFile { path: String::from("a"), exists: rwm().recorded_exists, sha256: None }],
+    };
+    let out = unsafe { core::ptr::read(&cp as *const Checkpoint as *const T) };
+    core::mem::forget(cp);
+    Ok(out)
+}
+fn mfs_write_maybe_failing<P: AsRef<Path>, C: AsRef<[u8]>>(path: P, contents: C) -> io::Result<()> {
+    if rwm().fail_first_write && mfs().writes == 0 {
+        mfs().writes += 1;
+        return Err(io::Error::from(io::ErrorKind::Other));
+    }
+    mfs_write(path, contents)
+}
+fn mfs_remove_file<P: AsRef<Path>>(path: P) -> io::Result<()> {
+    let fs = mfs();
+    fs.removes += 1;
+    match classify(path.as_ref()) {
+        PClass::WsA => fs.ws_a_exists = false,
+        PClass::CwdA => {
+            if fs.cwd_is_root { fs.ws_a_exists = false } else { fs.cwd_a_exists = false }
+        }
+        PClass::CkFileA => fs.ck_a_written = false,
+        _ => {}
+    }
+    Ok(())
+}
+
+macro_rules! c14_rewind {
+    ($name:ident, $fail:expr) => {
+        #[kani::proof]
+        #[kani::unwind(24)]
+        #[kani::stub(std::fmt::format, stub_fmt_format)]
+        #[kani::stub(alloc::string::ToString::to_string, stub_to_string)]
+        #[kani::stub(serde_json::from_slice, stub_checkpoint_from_slice)]
+        #[kani::stub(std::path::Path::exists, mfs_exists)]
+        #[kani::stub(std::fs::read, mfs_read)]
+        #[kani::stub(std::fs::write, mfs_write_maybe_failing)]
+        #[kani::stub(std::fs::remove_file, mfs_remove_file)]
+        #[kani::stub(std::fs::create_dir_all, mfs_create_dir_all)]
+        fn $name() {
+            let canary: Vec<u8> = Vec::new();
+            assert!(canary.capacity() == 0, "kani-model-canary: constant mis-modelled");
+            {
+                let fs = mfs();
+                fs.cwd_is_root = kani::any();
+                fs.ws_a_exists = kani::any();
+                fs.ws_a_content = kani::any();
+                fs.ck_a_written = true;
+                fs.ck_a_content = kani::any();
+                fs.meta_written = true;
+                rwm().recorded_exists = kani::any();
+                rwm().fail_first_write = $fail;
+            }
+            let pre_exists = mfs().ws_a_exists;
+            let pre_content = mfs().ws_a_content;
+            let stored = mfs().ck_a_content;
+            let ws = kani_workspace();
+            let ok = match ws.rewind_to_checkpoint("s", "k") {
+                Ok(()) => true,
+                Err(e) => {
+                    core::mem::forget(e);
+                    false
+                }
+            };
+            if ok {
+                if rwm().recorded_exists {
+                    assert!(mfs().ws_a_exists && mfs().ws_a_content == stored, "after rewind a covered file does not have its checkpoint-time bytes");
+                } else {
+                    assert!(!mfs().ws_a_exists, "after rewind a covered file that did not exist at checkpoint time is still there");
+                }
+                assert!(!($fail && rwm().recorded_exists), "rewind reported success although restoring the file failed");
+            } else {
+                assert!(mfs().ws_a_exists == pre_exists && (!pre_exists || mfs().ws_a_content == pre_content),
+                    "a failed rewind did not leave the workspace as it was");
+                assert!($fail, "rewind failed without any injected fault");
+            }
+            kani::cover!(ok, "rewind succeeded");
+            kani::cover!(pre_exists && !rwm().recorded_exists, "file created after the checkpoint is removed again");
+            core::mem::forget(ws);
+        }
+    };
+}
+c14_rewind!(c14_rewind_nofault, false);
+// NOT REGISTERED: the fault shape (first restore write fails) does not finish in 600 s -- the injected io::Error travels
+// through the closure result and the undo loop, and io::Error's drop glue (bit-packed pointer, boxed dyn Error arm) is
+// not folded by CBMC. "A failed rewind leaves the workspace as it was" is therefore outside the claim.
+// c14_rewind!(c14_rewind_fail_first_write, true);
+
+// C13: a refused checkpoint request has no side effect anywhere (no directory created, nothing written),
+// for each escaping request shape; the legal second file of the request must not be touched either.
+macro_rules! c13_refused_no_effect {
+    ($name:ident, $request:expr) => {
+        #[kani::proof]
+        #[kani::unwind(24)]
+        #[kani::stub(std::fmt::format, stub_fmt_format)]
+        #[kani::stub(alloc::string::ToString::to_string, stub_to_string)]
+        #[kani::stub(uuid::Uuid::new_v4, stub_uuid_v4)]
+        #[kani::stub(now_ms, stub_now_ms)]
+        #[kani::stub(hash_bytes, stub_hash_bytes)]
+        #[kani::stub(serde_json::to_vec_pretty, stub_to_vec_pretty)]
+        #[kani::stub(std::path::Path::exists, mfs_exists)]
+        #[kani::stub(std::fs::read, mfs_read)]
+        #[kani::stub(std::fs::write, mfs_write)]
+        #[kani::stub(std::fs::create_dir_all, mfs_create_dir_all)]
+        fn $name() {
+            let canary: Vec<u8> = Vec::new();
+            assert!(canary.capacity() == 0, "kani-model-canary: constant mis-modelled");
+            {
+                let fs = mfs();
+                fs.cwd_is_root = kani::any();
+                fs.ws_a_exists = kani::any();
+                fs.ws_a_content = kani::any();
+            }
+            let ws = kani_workspace();
+            // legal file first, escaping request second: the refusal must come before ANY effect
+            let files = [PathBuf::from("/r/a"), PathBuf::from($request)];
+            let ok = match ws.create_checkpoint("s", "l", &files) {
+                Ok(cp) => {
+                    core::mem::forget(cp);
+                    true
+                }
+                Err(e) => {
+                    core::mem::forget(e);
+                    false
+                }
+            };
+            assert!(!ok, "checkpoint of a path outside the root accepted");
+            assert!(mfs().mkdirs == 0 && mfs().writes == 0, "a refused checkpoint request left something behind in the checkpoint store");
+            kani::cover!(true, "decided");
+            core::mem::forget(files);
+            core::mem::forget(ws);
+        }
+    };
+}
+c13_refused_no_effect!(c13_ws_refused_no_effect_dotdot, "../x");
+c13_refused_no_effect!(c13_ws_refused_no_effect_abs, "/r/../x");
+
+// ---------------------------------------------------------------------------------------------------------
+// C12(b): patch application is all-or-nothing, over the model file system extended with a second file <root>/b.
+// Patch::parse is replaced by a stub returning the harness's operation list (the parser is string scanning: outside).
+// Shape: a 2-operation sequence over {Add a, Add b, Delete a, Delete b}; the initial existence and content ids of a
+// and b are symbolic. Obligation: Err => both files are exactly as before (existence and content); Ok => the files
+// are in the state of the sequential application and changed_files names exactly the touched paths.
+// ---------------------------------------------------------------------------------------------------------
+struct ModelFs2 {
+    b_exists: bool,
+    b_content: u8,
+}
+static mut MFS2: ModelFs2 = ModelFs2 { b_exists: false, b_content: 0 };
+fn mfs2() -> &'static mut ModelFs2 {
+    unsafe { &mut *core::ptr::addr_of_mut!(MFS2) }
+}
+fn is_ws_b(p: &Path) -> bool {
+    bytes_eq(p.as_os_str().as_encoded_bytes(), b"/r/b")
+}
+fn p_exists(this: &Path) -> bool {
+    if is_ws_b(this) { mfs2().b_exists } else { mfs_exists(this) }
+}
+fn p_read<P: AsRef<Path>>(path: P) -> io::Result<Vec<u8>> {
+    if is_ws_b(path.as_ref()) {
+        let mut v = Vec::with_capacity(1);
+        v.push(mfs2().b_content);
+        Ok(v)
+    } else {
+        mfs_read(path)
+    }
+}
+fn p_write<P: AsRef<Path>, C: AsRef<[u8]>>(path: P, contents: C) -> io::Result<()> {
+    if is_ws_b(path.as_ref()) {
+        let b = contents.as_ref();
+        mfs().writes += 1;
+        mfs2().b_exists = true;
+        mfs2().b_content = if b.is_empty() { 0 } else { b[0] };
+        Ok(())
+    } else {
+        mfs_write(path, contents)
+    }
+}
+fn p_remove<P: AsRef<Path>>(path: P) -> io::Result<()> {
+    if is_ws_b(path.as_ref()) {
+        mfs().removes += 1;
+        mfs2().b_exists = false;
+        Ok(())
+    } else {
+        mfs_remove_file(path)
+    }
+}
+#[derive(Clone, Copy, PartialEq, Eq)]
+enum MOp {
+    AddA,
+    AddB,
+    DelA,
+    DelB,
+}
+fn lit_path(s: &'static str) -> PathBuf {
+    use std::os::unix::ffi::OsStringExt;
+    PathBuf::from(std::ffi::OsString::from_vec(unsafe { Vec::from_raw_parts(s.as_ptr() as *mut u8, s.len(), 0) }))
+}
+fn mop_to_patch_op(op: MOp, content: *mut u8) -> PatchOp {
+    match op {
+        MOp::AddA => PatchOp::AddFile { path: lit_path("a"), content: unsafe { String::from_raw_parts(content, 1, 0) } },
+        MOp::AddB => PatchOp::AddFile { path: lit_path("b"), content: unsafe { String::from_raw_parts(content, 1, 0) } },
+        MOp::DelA => PatchOp::DeleteFile { path: lit_path("a") },
+        MOp::DelB => PatchOp::DeleteFile { path: lit_path("b") },
+    }
+}
+static mut PATCH_OPS: [MOp; 2] = [MOp::AddA, MOp::AddA];
+static mut PATCH_CONTENT: [u8; 2] = [0, 0];
+// typed static storage for the operation list (a heap Vec<PatchOp> is read back unfolded: the paths inside then have
+// symbolic lengths and Path::components unrolls to the unwind bound -- measured > 400 s)
+static mut OPS_STORE: [PatchOp; 2] = [PatchOp::DeleteFile { path: PathBuf::new() }, PatchOp::DeleteFile { path: PathBuf::new() }];
+fn stub_patch_parse(_input: &str) -> Result<Patch, PatchParseError> {
+    let ops = unsafe { *core::ptr::addr_of!(PATCH_OPS) };
+    let cp = unsafe { core::ptr::addr_of_mut!(PATCH_CONTENT) as *mut u8 };
+    let store = unsafe { core::ptr::addr_of_mut!(OPS_STORE) as *mut PatchOp };
+    unsafe {
+        core::ptr::write(store, mop_to_patch_op(ops[0], cp));
+        core::ptr::write(store.add(1), mop_to_patch_op(ops[1], cp.add(1)));
+    }
+    Ok(patch::verif_kani::kani_patch(unsafe { Vec::from_raw_parts(store, 2, 0) }))
+}
+// reference semantics of one operation on the abstract state (exists, content)
+fn ref_apply(op: MOp, c: u8, a: &mut (bool, u8), b: &mut (bool, u8)) -> bool {
+    match op {
+        MOp::AddA => { if a.0 { return false; } *a = (true, c); true }
+        MOp::AddB => { if b.0 { return false; } *b = (true, c); true }
+        MOp::DelA => { if !a.0 { return false; } a.0 = false; true }
+        MOp::DelB => { if !b.0 { return false; } b.0 = false; true }
+    }
+}
+
+// NOT REGISTERED. Measured 3 times (400 s, 400 s, 600 s at unwind 24 / 24 / 7): apply_patch keeps the touched paths in a
+// BTreeSet<PathBuf> and an undo Vec; the PathBufs read back from those heap nodes are unfolded, and every path comparison
+// (Path::components on both sides) unrolls to the unwind bound. The atomicity clause of C12 stays outside.
+macro_rules! c12_atomic {
+    ($name:ident, $op0:expr, $op1:expr) => {
+        #[kani::proof]
+        #[kani::unwind(7)]
+        #[kani::stub(std::fmt::format, stub_fmt_format)]
+        #[kani::stub(alloc::string::ToString::to_string, stub_to_string)]
+        #[kani::stub(Patch::parse, stub_patch_parse)]
+        #[kani::stub(std::path::Path::exists, p_exists)]
+        #[kani::stub(std::fs::read, p_read)]
+        #[kani::stub(std::fs::write, p_write)]
+        #[kani::stub(std::fs::remove_file, p_remove)]
+        #[kani::stub(std::fs::create_dir_all, mfs_create_dir_all)]
+        fn $name() {
+            let canary: Vec<u8> = Vec::new();
+            assert!(canary.capacity() == 0, "kani-model-canary: constant mis-modelled");
+            unsafe {
+                PATCH_OPS = [$op0, $op1];
+                PATCH_CONTENT = [kani::any(), kani::any()];
+            }
+            kani::assume(unsafe { PATCH_CONTENT[0] } < 128 && unsafe { PATCH_CONTENT[1] } < 128);
+            mfs().ws_a_exists = kani::any();
+            mfs().ws_a_content = kani::any();
+            mfs2().b_exists = kani::any();
+            mfs2().b_content = kani::any();
+            let a0 = (mfs().ws_a_exists, mfs().ws_a_content);
+            let b0 = (mfs2().b_exists, mfs2().b_content);
+            // reference
+            let mut ra = a0;
+            let mut rb = b0;
+            let c = unsafe { PATCH_CONTENT };
+            let ok_ref = ref_apply($op0, c[0], &mut ra, &mut rb) && ref_apply($op1, c[1], &mut ra, &mut rb);
+
+            let ws = kani_workspace();
+            let ok = match ws.apply_patch("p") {
+                Ok(res) => {
+                    core::mem::forget(res);
+                    true
+                }
+                Err(e) => {
+                    core::mem::forget(e);
+                    false
+                }
+            };
+            let a1 = (mfs().ws_a_exists, mfs().ws_a_content);
+            let b1 = (mfs2().b_exists, mfs2().b_content);
+            assert!(ok == ok_ref, "patch accepted / refused differently from its sequential meaning");
+            if ok {
+                assert!(a1.0 == ra.0 && (!ra.0 || a1.1 == ra.1) && b1.0 == rb.0 && (!rb.0 || b1.1 == rb.1),
+                    "successful patch did not leave the workspace in the state of applying its operations in order");
+            } else {
+                assert!(a1.0 == a0.0 && (!a0.0 || a1.1 == a0.1) && b1.0 == b0.0 && (!b0.0 || b1.1 == b0.1),
+                    "failed patch left a change behind (not all-or-nothing)");
+            }
+            kani::cover!(ok, "patch applied");
+            kani::cover!(!ok && mfs().writes + mfs().removes > 0, "patch failed after a mutation that had to be undone");
+            core::mem::forget(ws);
+        }
+    };
+}
+// (not registered, see note) c12_atomic!(c12_atomic_addb_dela, MOp::AddB, MOp::DelA);
+// (not registered, see note) c12_atomic!(c12_atomic_dela_adda, MOp::DelA, MOp::AddA);
+// (not registered, see note) c12_atomic!(c12_atomic_adda_adda, MOp::AddA, MOp::AddA);
+// (not registered, see note) c12_atomic!(c12_atomic_dela_delb, MOp::DelA, MOp::DelB);
